@@ -199,7 +199,8 @@ func runHistory(base string, h History) runResult {
 	}
 	pendingFault := "" // first fault of a failed update not yet followed by a successful one
 	restarted := false
-	fresh := true
+	newInst := true // the instance has not written a configuration yet
+	up := false     // the instance has reloaded haproxy at least once
 	for i, st := range h.Steps {
 		st.State.Normalize(false)
 		if st.Restart {
@@ -211,16 +212,19 @@ func runHistory(base string, h History) runResult {
 			env := e
 			master.OnReload = func() { running = env.ReadDisk().Canon() }
 			restarted = true
-			fresh = true
+			newInst = true
+			up = false
 		}
-		if fresh {
+		{
 			// until a new instance has written its first configuration it also removes the shard
-			// files it does not know: faults on shard files are not armed meanwhile
+			// files it does not know: faults on shard files are not armed meanwhile; and until its
+			// first reload it waits for the master socket for ever (not a failure of the update)
 			var fl []string
 			for _, f := range st.Faults {
-				if !strings.HasPrefix(f, "shard:") {
-					fl = append(fl, f)
+				if (newInst && strings.HasPrefix(f, "shard:")) || (!up && f == "reload-request") {
+					continue
 				}
+				fl = append(fl, f)
 			}
 			st.Faults = fl
 		}
@@ -259,7 +263,7 @@ func runHistory(base string, h History) runResult {
 		} else {
 			for _, w := range o.Written {
 				if w == "cfg/haproxy.cfg" {
-					fresh = false
+					newInst = false
 				}
 			}
 		}
@@ -277,6 +281,9 @@ func runHistory(base string, h History) runResult {
 			}
 		}
 		o.Reloads = master.Reloads() - rl
+		if running != "" && o.Reloads > 0 && err == nil {
+			up = true
+		}
 		o.Disk = e.ReadDisk()
 		o.Running = running
 		r.Obs = append(r.Obs, o)
